@@ -346,6 +346,11 @@ Http::One::RequestParser::doParse(const SBuf &aBuf)
     if (parsingStage_ == HTTP_PARSE_NONE) {
         skipGarbageLines();
 
+        // A lone CR may be the first half of an empty line (CRLF) that skipGarbageLines()
+        // tolerates. Wait for its second half instead of treating CR as the request-line.
+        if (Config.onoff.relaxed_header_parser && buf_.length() == 1 && buf_[0] == '\r')
+            return false;
+
         // if we hit something before EOS treat it as a message
         if (!buf_.isEmpty())
             parsingStage_ = HTTP_PARSE_FIRST;
